@@ -1,10 +1,103 @@
 /-
-  Drive/Mutate.lean — driver suite `mutate` (stub; to be implemented).
+  Drive/Mutate.lean — driver suite `mutate`: a start instance and a history of operations run
+  through `Sem/Mutate.step` with the generated wrapper table; per step the outcome and the state;
+  plus `wellFormed` evaluated on every state the real code was in.
 -/
 import TypedpyModel.Drive.Wire
+import TypedpyModel.Sem.Mutate
+import TypedpyModel.Spec.Conforms
+import TypedpyModel.Generated.Wrappers
 namespace Typedpy.Drive.Mutate
 open Lean (Json)
+open Typedpy Typedpy.Wire
 
-def run (_j : Json) : Except String Json := .error "suite mutate not implemented"
+def pairsOfJson (j : Json) : Except String (List (PyVal × PyVal)) := do
+  match ← valOfJson j with
+  | .dict kvs => pure kvs
+  | .list xs => xs.mapM fun x => match x with
+    | .tuple [a, b] | .list [a, b] => pure (a, b)
+    | _ => throw "pairs: expected 2-sequences"
+  | _ => throw "pairs: expected a dict or list of pairs"
+
+def listOfJson (j : Json) : Except String (List PyVal) := do
+  match ← valOfJson j with
+  | .list xs | .tuple xs | .deque xs => pure xs
+  | .set _ xs => pure xs
+  | _ => throw "list argument expected"
+
+def nopOfJson (name : String) (args : Array Json) : Except String NOp := do
+  let v (i : Nat) : Except String PyVal := valOfJson args[i]!
+  let int (i : Nat) : Except String Int := args[i]!.getInt?
+  match name, args.size with
+  | "__setitem__", 2 => pure (.setitem (← v 0) (← v 1))
+  | "__delitem__", 1 => pure (.delitem (← v 0))
+  | "append", 1 => pure (.append (← v 0))
+  | "appendleft", 1 => pure (.appendleft (← v 0))
+  | "extend", 1 => pure (.extend (← listOfJson args[0]!))
+  | "extendleft", 1 => pure (.extendleft (← listOfJson args[0]!))
+  | "insert", 2 => pure (.insert (← int 0) (← v 1))
+  | "remove", 1 => pure (.remove (← v 0))
+  | "pop", 0 => pure (.pop none none)
+  | "pop", 1 => pure (.pop (some (← v 0)) none)
+  | "pop", 2 => pure (.pop (some (← v 0)) (some (← v 1)))
+  | "popleft", 0 => pure .popleft
+  | "popitem", 0 => pure .popitem
+  | "clear", 0 => pure .clear
+  | "sort", 0 => pure .sort
+  | "reverse", 0 => pure .reverse
+  | "rotate", 1 => pure (.rotate (← int 0))
+  | "__iadd__", 1 => pure (.iadd (← listOfJson args[0]!))
+  | "__imul__", 1 => pure (.imul (← int 0))
+  | "update", 1 => pure (.update (← pairsOfJson args[0]!))
+  | "setdefault", 2 => pure (.setdefault (← v 0) (← v 1))
+  | "__ior__", 1 => pure (.ior (← pairsOfJson args[0]!))
+  | n, k => throw s!"mutator {n}/{k}"
+
+def opOfJson (j : Json) : Except String Op := do
+  let kind ← (← j.getObjVal? "op").getStr?
+  let f ← (← j.getObjVal? "f").getStr?
+  match kind with
+  | "setattr" => pure (.setattr f (← valOfJson (← j.getObjVal? "v")))
+  | "delitem" => pure (.delitem f)
+  | "call" => do
+    let args ← (← j.getObjVal? "args").getArr?
+    pure (.call f (← nopOfJson (← (← j.getObjVal? "m").getStr?) args))
+  | "callNested" => do
+    let args ← (← j.getObjVal? "args").getArr?
+    pure (.callNested f (← valOfJson (← j.getObjVal? "k")) (← nopOfJson (← (← j.getObjVal? "m").getStr?) args))
+  | k => throw s!"op {k}"
+
+def errName : MErr → String
+  | .typeErr => "TypeError" | .valueErr => "ValueError" | .both => "InvalidStructureErr"
+  | .indexErr => "IndexError" | .keyErr => "KeyError" | .other n => n
+
+def outcomeJson : Outcome → Json
+  | .ok => .str "ok"
+  | .err e => .str (errName e)
+
+def run (j : Json) : Except String Json := do
+  let O ← oraclesOfJson j
+  let cls ← declOfJson (← j.getObjVal? "cls")
+  let kw ← kwOfJson (← j.getObjVal? "kw")
+  let ops ← (← (← j.getObjVal? "ops").getArr?).toList.mapM opOfJson
+  match cls with
+  | .struct c fields _ =>
+    let start := construct O cls kw
+    let steps : List Json := match start with
+      | .ok (.inst _ attrs) =>
+        let rec go (s : Attrs) : List Op → List Json
+          | [] => []
+          | op :: rest =>
+            let r := step Generated.wrappers O c fields s op
+            Json.mkObj [("out", outcomeJson r.2), ("state", valToJson (.inst c.name r.1))] :: go r.1 rest
+        go attrs ops
+      | _ => []
+    let implWf ← match optField j "implStates" with
+      | none => pure []
+      | some x => (← x.getArr?).toList.mapM fun st => do
+        pure (Json.bool (wellFormed O cls (← valOfJson st)))
+    pure (Json.mkObj [("start", resToJson start), ("steps", Json.arr steps.toArray),
+                      ("implWf", Json.arr implWf.toArray)])
+  | _ => throw "mutate: cls must be a struct"
 
 end Typedpy.Drive.Mutate
